@@ -256,7 +256,7 @@ Proof. intros H1 H2. unfold par_make. apply zlen_eqb in H1, H2. now rewrite H1, 
 
 Lemma par_index a ix pos : par_wf a -> resolve (par_len a) ix = Ok pos ->
   exists b, par_getitem a ix = Ok b /\ par_wf b
-    /\ par_elements b = select (0, 0, 0) (par_elements a) pos /\ par_len b = zlen pos
+    /\ par_elements b = select (0, 0, []) (par_elements a) pos /\ par_len b = zlen pos
     /\ pa_vol b = pa_vol a /\ pa_nv b = pa_nv a.
 Proof.
   intros [Hw1 Hw2] Hr. unfold par_getitem. rewrite Hr.
@@ -264,8 +264,8 @@ Proof.
   split; [unfold par_wf; cbn; now rewrite !select_length|].
   unfold par_elements, par_len. cbn [pa_name pa_voxels pa_vertices pa_vol pa_nv].
   split; [|split; [apply select_zlen|split; reflexivity]].
-  rewrite select_combine by (rewrite combine_length; lia).
-  rewrite select_combine by lia. reflexivity.
+  rewrite select_combine by (rewrite combine_length, Hw1, Nat.min_id; symmetry; exact Hw2).
+  rewrite select_combine by (now rewrite Hw1). reflexivity.
 Qed.
 Lemma par_index_err a ix e : resolve (par_len a) ix = Err e -> par_getitem a ix = Err e.
 Proof. intros H. unfold par_getitem. now rewrite H. Qed.
@@ -1402,7 +1402,70 @@ Qed.
 Lemma bm_eqb_refl a : bm_wf a -> bm_eqb a a = true.
 Proof. intros (_ & _ & _ & _ & _ & _ & Hnd). now apply bm_eqb_fields. Qed.
 
-Definition par_wf' (a : parcels) : Prop := par_wf a /\ NoDup (keys (pa_nv a)).
+(* ---- ParcelsAxis.__eq__: the per-parcel vertex dictionaries *)
+Lemma vlookup_In_pair d k v : vlookup d k = Some v -> In (k, v) d.
+Proof.
+  induction d as [|[k0 v0] d IH]; cbn; [discriminate|].
+  destruct (k0 =? k) eqn:E; [intros [= ->]; left; f_equal; lia|intros H; right; now apply IH].
+Qed.
+Lemma vlookup_NoDup d k v : NoDup (map fst d) -> In (k, v) d -> vlookup d k = Some v.
+Proof.
+  induction d as [|[k0 v0] d IH]; cbn; intros Hnd Hin; [destruct Hin|].
+  inversion Hnd as [|? ? Hn Hd]; subst. destruct Hin as [Hin|Hin].
+  - injection Hin as -> ->. now rewrite Z.eqb_refl.
+  - destruct (k0 =? k) eqn:E; [|now apply IH]. apply Z.eqb_eq in E. subst k0.
+    exfalso. apply Hn. apply in_map_iff. now exists (k, v).
+Qed.
+Lemma vlookup_key d k : (exists v, vlookup d k = Some v) <-> In k (map fst d).
+Proof.
+  induction d as [|[k0 v0] d IH]; cbn.
+  - split; [intros (v & H); discriminate|intros []].
+  - destruct (k0 =? k) eqn:E.
+    + split; [intros _; left; lia|intros _; eauto].
+    + rewrite IH. split; [auto|intros [H|H]; [lia|exact H]].
+Qed.
+
+Lemma vdict_eqb_spec v1 v2 : vdict_eqb v1 v2 = true <->
+  length v1 = length v2 /\ forall k idx, In (k, idx) v1 -> vlookup v2 k = Some idx.
+Proof.
+  unfold vdict_eqb. rewrite andb_true_iff, zlen_eqb, forallb_forall. split; intros [H1 H2]; (split; [exact H1|]).
+  - intros k idx Hin. specialize (H2 (k, idx) Hin). cbn in H2. destruct (vlookup v2 k) as [i2|]; [|discriminate].
+    apply list_eqb_eq in H2. now subst.
+  - intros [k idx] Hin. cbn. rewrite (H2 k idx Hin). apply list_eqb_refl.
+Qed.
+Lemma vdict_eqb_refl v : NoDup (map fst v) -> vdict_eqb v v = true.
+Proof. intros H. apply vdict_eqb_spec. split; [reflexivity|]. intros k idx Hin. now apply vlookup_NoDup. Qed.
+Lemma vdict_eqb_trans a b c : vdict_eqb a b = true -> vdict_eqb b c = true -> vdict_eqb a c = true.
+Proof.
+  rewrite !vdict_eqb_spec. intros [L1 H1] [L2 H2]. split; [congruence|].
+  intros k idx Hin. apply H2. apply vlookup_In_pair. now apply H1.
+Qed.
+(* the loop only walks the keys of the LEFT operand; with equal sizes and distinct keys that is symmetric *)
+Lemma vdict_eqb_sym a b : NoDup (map fst a) -> NoDup (map fst b) -> vdict_eqb a b = true -> vdict_eqb b a = true.
+Proof.
+  rewrite !vdict_eqb_spec. intros Ha Hb [L H]. split; [congruence|]. intros k idx Hin.
+  assert (Hincl : incl (map fst a) (map fst b)).
+  { intros x Hx. apply in_map_iff in Hx as ([k' i'] & <- & Hx). apply vlookup_key. exists i'. now apply H. }
+  assert (Hrev : incl (map fst b) (map fst a)).
+  { apply NoDup_length_incl; [exact Ha|rewrite !map_length; lia|exact Hincl]. }
+  assert (Hk : In k (map fst a)) by (apply Hrev; apply in_map_iff; now exists (k, idx)).
+  apply vlookup_key in Hk as (i2 & Hi2). rewrite Hi2. f_equal.
+  apply vlookup_In_pair in Hi2. apply H in Hi2. apply (vlookup_NoDup b k idx Hb) in Hin. congruence.
+Qed.
+
+Lemma verts_eqb_spec l1 l2 : verts_eqb l1 l2 = true <-> Forall2 (fun a b => vdict_eqb a b = true) l1 l2.
+Proof.
+  unfold verts_eqb. rewrite andb_true_iff, zlen_eqb. revert l2. induction l1 as [|a l1 IH]; intros [|b l2]; cbn.
+  - split; [constructor|auto].
+  - split; [intros [H _]; discriminate|intros H; inversion H].
+  - split; [intros [H _]; discriminate|intros H; inversion H].
+  - rewrite andb_true_iff. split.
+    + intros [L [H1 H2]]. constructor; [exact H1|]. apply IH. split; [lia|exact H2].
+    + intros H. inversion H as [|? ? ? ? H1 H2]; subst. apply IH in H2 as [L H2]. split; [lia|auto].
+Qed.
+
+Definition par_wf' (a : parcels) : Prop :=
+  par_wf a /\ NoDup (keys (pa_nv a)) /\ Forall (fun d => NoDup (map fst d)) (pa_vertices a).
 
 Definition axis_wf (a : axis) : Prop :=
   match a with
@@ -1417,7 +1480,8 @@ Lemma axis_eqb_refl a : axis_wf a -> axis_eqb a a = true.
 Proof.
   destruct a as [x|x|x|x|x]; cbn; intros H.
   - apply bm_eqb_refl, H.
-  - destruct H as [_ H]. unfold par_eqb. now rewrite Z.eqb_refl, !list_eqb_refl, dict_eqb_refl, opt_vol_eqb_refl.
+  - destruct H as (_ & H & Hv). unfold par_eqb. rewrite Z.eqb_refl, !list_eqb_refl, dict_eqb_refl, opt_vol_eqb_refl by exact H.
+    cbn [andb]. apply verts_eqb_spec. induction Hv; constructor; [now apply vdict_eqb_refl|assumption].
   - unfold sc_eqb. now rewrite Z.eqb_refl, !list_eqb_refl.
   - unfold lab_eqb. now rewrite Z.eqb_refl, !list_eqb_refl.
   - unfold ser_eqb. now rewrite !Z.eqb_refl.
@@ -1425,8 +1489,15 @@ Qed.
 
 Lemma par_eqb_iff x y : par_eqb x y = true <->
   par_len x = par_len y /\ pa_name x = pa_name y /\ dict_eqb (pa_nv x) (pa_nv y) = true
-  /\ pa_voxels x = pa_voxels y /\ pa_vol x = pa_vol y /\ pa_vertices x = pa_vertices y.
-Proof. unfold par_eqb. rewrite !andb_true_iff, !list_eqb_eq, opt_vol_eqb_eq, Z.eqb_eq. tauto. Qed.
+  /\ pa_voxels x = pa_voxels y /\ pa_vol x = pa_vol y
+  /\ Forall2 (fun a b => vdict_eqb a b = true) (pa_vertices x) (pa_vertices y).
+Proof. unfold par_eqb. rewrite !andb_true_iff, !list_eqb_eq, opt_vol_eqb_eq, Z.eqb_eq, verts_eqb_spec. tauto. Qed.
+
+Lemma Forall2_trans' {A} (R : A -> A -> Prop) : (forall a b c, R a b -> R b c -> R a c) ->
+  forall l1 l2 l3, Forall2 R l1 l2 -> Forall2 R l2 l3 -> Forall2 R l1 l3.
+Proof.
+  intros HR l1 l2 l3 H. revert l3. induction H; intros l3 H'; inversion H'; subst; constructor; eauto.
+Qed.
 Lemma sc_eqb_iff x y : sc_eqb x y = true <-> sc_len x = sc_len y /\ sc_name x = sc_name y /\ sc_meta x = sc_meta y.
 Proof. unfold sc_eqb. rewrite !andb_true_iff, !list_eqb_eq, Z.eqb_eq. tauto. Qed.
 Lemma lab_eqb_iff x y : lab_eqb x y = true <->
@@ -1442,7 +1513,8 @@ Proof.
   destruct x as [x|x|x|x|x], y as [y|y|y|y|y]; cbn; try discriminate; destruct z as [z|z|z|z|z]; cbn; try discriminate.
   - apply bm_eqb_trans.
   - rewrite !par_eqb_iff. intros (A1 & A2 & A3 & A4 & A5 & A6) (B1 & B2 & B3 & B4 & B5 & B6).
-    repeat split; try congruence. now apply dict_eqb_trans with (pa_nv y).
+    repeat split; try congruence; [now apply dict_eqb_trans with (pa_nv y)|].
+    eapply Forall2_trans'; [|exact A6|exact B6]. intros a b c. apply vdict_eqb_trans.
   - rewrite !sc_eqb_iff. intros (A1 & A2 & A3) (B1 & B2 & B3). repeat split; congruence.
   - rewrite !lab_eqb_iff. intros (A1 & A2 & A3 & A4) (B1 & B2 & B3 & B4). repeat split; congruence.
   - rewrite !ser_eqb_iff. congruence.
@@ -1540,3 +1612,46 @@ Qed.
    iter_structures / to_mapping refuse it (self.name[0] raises IndexError) *)
 Lemma bm_empty_no_maps a : b_name a = [] -> bm_to_mapping a = Err EIndex /\ bm_iter_structures a = Err EIndex.
 Proof. intros H. unfold bm_to_mapping, bm_iter_structures, bm_runs. rewrite H. auto. Qed.
+
+(* ================================================================== == is symmetric on well-formed axes *)
+Lemma dict_eqb_lookup a b : NoDup (keys a) -> NoDup (keys b) -> dict_eqb a b = true ->
+  forall k, lookup a k = lookup b k.
+Proof.
+  intros Ha Hb H. unfold dict_eqb in H. apply andb_true_iff in H as [L F]. apply zlen_eqb in L. rewrite forallb_forall in F.
+  assert (Hpair : forall k v, In (k, v) a -> lookup b k = Some v).
+  { intros k v Hin. specialize (F (k, v) Hin). cbn in F. destruct (lookup b k) as [v'|]; [|discriminate]. f_equal. lia. }
+  assert (Hincl : incl (keys a) (keys b)).
+  { intros x Hx. unfold keys in Hx. apply in_map_iff in Hx as ([k v] & <- & Hx). apply lookup_In. exists v. now apply Hpair. }
+  assert (Hrev : incl (keys b) (keys a)).
+  { apply NoDup_length_incl; [exact Ha|unfold keys; rewrite !map_length; lia|exact Hincl]. }
+  intros k. destruct (lookup a k) as [v|] eqn:E.
+  - symmetry. apply Hpair. now apply lookup_In_pair.
+  - destruct (lookup b k) as [v|] eqn:E2; [|reflexivity].
+    assert (In k (keys a)) by (apply Hrev, lookup_In; eauto). apply lookup_In in H as (v' & Hv'). congruence.
+Qed.
+Lemma dict_eqb_sym a b : NoDup (keys a) -> NoDup (keys b) -> dict_eqb a b = true -> dict_eqb b a = true.
+Proof.
+  intros Ha Hb H. apply dict_eqb_of_lookup; [exact Hb|exact Ha|]. intros k. symmetry. now apply dict_eqb_lookup.
+Qed.
+
+Lemma Forall2_sym' {A} (R : A -> A -> Prop) (P : A -> Prop) : (forall a b, P a -> P b -> R a b -> R b a) ->
+  forall l1 l2, Forall P l1 -> Forall P l2 -> Forall2 R l1 l2 -> Forall2 R l2 l1.
+Proof.
+  intros HR l1 l2 H1 H2 H. induction H; [constructor|]. inversion H1; inversion H2; subst. constructor; auto.
+Qed.
+
+Lemma axis_eqb_sym a b : axis_wf a -> axis_wf b -> axis_eqb a b = true -> axis_eqb b a = true.
+Proof.
+  destruct a as [x|x|x|x|x], b as [y|y|y|y|y]; cbn; try discriminate; intros Ha Hb.
+  - destruct Ha as [(_ & _ & _ & _ & _ & _ & Hnx) _], Hb as [(_ & _ & _ & _ & _ & _ & Hny) _].
+    rewrite !bm_eqb_iff. intros (A1 & A2 & A3 & A4 & A5 & A6 & A7). repeat split; try congruence.
+    + destruct A3 as [A3|A3]; [left; congruence|right; congruence].
+    + now apply dict_eqb_sym.
+  - destruct Ha as (_ & Hnx & Hvx), Hb as (_ & Hny & Hvy).
+    rewrite !par_eqb_iff. intros (A1 & A2 & A3 & A4 & A5 & A6). repeat split; try congruence.
+    + now apply dict_eqb_sym.
+    + eapply Forall2_sym'; [|exact Hvx|exact Hvy|exact A6]. intros u v Hu Hv. now apply vdict_eqb_sym.
+  - rewrite !sc_eqb_iff. intros (A1 & A2 & A3). repeat split; congruence.
+  - rewrite !lab_eqb_iff. intros (A1 & A2 & A3 & A4). repeat split; congruence.
+  - rewrite !ser_eqb_iff. congruence.
+Qed.
